@@ -37,6 +37,9 @@ def gen_cases(rng, tier):
         c = coregen.gen_structured(rng)
         c['obs'] = ['plain', 'unrolled']
         cases.append(c)
+    for c in coregen.fixed_structured():
+        c['obs'] = ['plain', 'unrolled']
+        cases.append(c)
     # library-built circuits: the unrolled listing of a repeated block must be the n-fold concatenation of its listing
     nlib = 24 if tier == 'quick' else 300
     for _ in range(nlib):
